@@ -85,12 +85,15 @@ func C15(seed int64, n int) (*cq.Set, *cq.Interner) {
 		concShared := make([]string, len(scs))
 		var wg sync.WaitGroup
 		var mu sync.Mutex
+		adm.SlowLister.Store(true)
 		for g := 0; g < 16; g++ {
 			wg.Add(1)
 			go func(g int) {
 				defer wg.Done()
 				for k := range scs {
-					i := (k*7 + g*3) % len(scs)
+					// goroutines g and g+8 walk the history in the same order: the same request (same
+					// namespace) is in flight twice at once; the other pairs run different requests
+					i := (k*7 + (g%8)*3) % len(scs)
 					resp, sh, pan := ll.Serve(&scs[i].Req, &scs[i].World)
 					if pan != "" || resp == nil {
 						continue
@@ -108,6 +111,7 @@ func C15(seed int64, n int) (*cq.Set, *cq.Interner) {
 			}(g)
 		}
 		wg.Wait()
+		adm.SlowLister.Store(false)
 		if now := snapshotShared(); !reflect.DeepEqual(now, initial) {
 			set.GoFails = append(set.GoFails, cq.GoFail{What: "a process-wide shared response object was modified during concurrent handling", Replay: map[string]interface{}{"shared_now": now}})
 			initial = now
